@@ -120,11 +120,12 @@ impl SwiftField for Field25P {
         Self: Sized,
     {
         // Field25P has account on first line and BIC on second
-        let lines: Vec<&str> = input.split('\n').collect();
+        super::swift_utils::require_ascii(input, "Field 25P")?;
+        let lines = super::field_utils::content_lines(input, "Field 25P")?;
 
-        if lines.is_empty() {
+        if lines.len() > 2 {
             return Err(ParseError::InvalidFormat {
-                message: "Field 25P cannot be empty".to_string(),
+                message: format!("Field 25P has {} line(s) after the BIC", lines.len() - 2),
             });
         }
 
